@@ -654,9 +654,10 @@ def emit(path_tla, path_json):
     L.append('HasText == ' + fun([(k, q(v)) for k, v in sorted(hastext.items())]))
     # simple types
     def st_tla(d):
-        return ('[prim |-> %s, int |-> %s, ws |-> %s, hasEnum |-> %s, enum |-> %s, pats |-> %s, hasMin |-> %s, minV |-> %d, '
+        return ('[prim |-> %s, int |-> %s, ws |-> %s, hasEnum |-> %s, enum |-> %s, enumcp |-> %s, pats |-> %s, hasMin |-> %s, minV |-> %d, '
                 'minEx |-> %s, hasMax |-> %s, maxV |-> %d, minLen |-> %d, union |-> %s]') % (
             q(d['prim']), tbool(d['int']), q(d['ws']), tbool(d['hasEnum']), tset(q(e) for e in d['enum']),
+            tset(tseq(str(ord(c)) for c in e) for e in d['enum']),
             tseq(tset(str(i) for i in grp) for grp in d['pats']), tbool(d['hasMin']), d['minV'], tbool(d['minEx']),
             tbool(d['hasMax']), d['maxV'], d['minLen'], tseq(q(m) for m in d['union']))
     L.append('SimpleTypes == %s' % tset(q(k) for k in sorted(st.table)))
